@@ -347,7 +347,7 @@ def check_cluster_property(run, props_file, cone, oracles, kills=False, quick=(1
         pinned += run.cov.get('pinned_statements', [])
         # node-level models meet the guards of the abstract system
         broken += flow.proof_step(run, 'theories/props/Properties_bridge.v',
-                                  ['theories/Election.v', 'theories/PLog.v', 'theories/BufLog.v', 'theories/AbstractRaft.v', 'theories/proofs/C02.v', 'theories/proofs/C19.v', 'theories/proofs/AR_bridge.v'])
+                                  ['theories/Election.v', 'theories/PLog.v', 'theories/BufLog.v', 'theories/AbstractRaft.v', 'theories/proofs/C02.v', 'theories/proofs/C19.v', 'theories/proofs/C07.v', 'theories/proofs/AR_election.v', 'theories/proofs/AR_logs.v', 'theories/proofs/AR_bridge.v'])
         run.cov['pinned_statements'] = pinned + run.cov.get('pinned_statements', [])
     violations = []
     try:
